@@ -100,6 +100,9 @@ impl TransportFn<()> for Cell {
         });
         let r = new_queue(size, &mut t, qidx, indirect, event_idx, ap);
         let (hal, tr) = with(|w| (w.hal.capture.take().unwrap(), w.tr.capture.take().unwrap()));
+        // the injected failure of the second allocation only counts if there was a second one (a
+        // layout that needs a single region is as good as one that needs two)
+        let fail_second = fail_second && hal.iter().any(|e| matches!(e, HalEv::Alloc { failed: true, .. }));
         let expect_err = match answer {
             1 => Some(Error::AlreadyUsed),
             3 | 4 => Some(Error::InvalidParam),
